@@ -87,6 +87,10 @@ MUTANTS = [  # (contract module, qualname, file, regex, replacement, expect)  ex
  ("contracts.c05", "BayesianNetwork.check_model", "pgmpy/models/BayesianNetwork.py", r"if parent_cpd.state_names\[node\] != cpd.state_names\[node\]:", "if parent_cpd.state_names[node] == cpd.state_names[node]:", "break"),
  ("contracts.c08", "DAG.active_trail_nodes", "pgmpy/base/DAG.py", r"        if observed is not None:\n            if isinstance\(observed, set\):", "        if observed:\n            if isinstance(observed, set):", "break"),
  ("contracts.c01", "BaseEliminationOrder.get_elimination_order", "pgmpy/inference/EliminationOrder.py", r"        while nodes:\n            scores = \{node: self.cost\(node\) for node in nodes\}\n            min_score_node = min\(scores, key=scores.get\)\n", "        while True:\n            min_score_node = min(nodes, key=self.cost, default=None)\n            if not min_score_node:\n                break\n", "break"),
+ ("contracts.c12", "PDAG.to_dag", "pgmpy/base/DAG.py", r"                    for Y in pdag.predecessors\(X\):\n                        dag.add_edge\(Y, X\)", "                    for Y in pdag.predecessors(X):\n                        dag.add_edge(X, Y)", "break"),
+ ("contracts.c12", "PDAG.to_dag", "pgmpy/base/DAG.py", r"if not dag.has_edge\(Y, X\):", "if True:", "break"),
+ ("contracts.c12", "PDAG.to_dag", "pgmpy/base/DAG.py", r"        dag.add_edges_from\(self.directed_edges\)\n", "", "break"),
+ ("contracts.c12", "PDAG.to_dag", "pgmpy/base/DAG.py", r"                    pdag.remove_node\(X\)\n", "", "break"),
 ]
 
 
